@@ -722,6 +722,161 @@ func seqInts(n int) []int {
 	return r
 }
 
+// ---------------------------------------------------------------------------
+// deep networks: every chain length up to a bound
+//
+// bias, input, N hidden neurons in a chain, output; the input also feeds the middle of the chain (skip link), the bias
+// feeds every fifth neuron and the output; activations alternate between steepened sigmoid, tanh and linear; the node
+// list in signal order or reversed. Reference: one pass in chain order.
+
+func c12LongBuild(n int, reversed bool) (*network.Network, []float64) {
+	bias, in, out := network.NewNNode(1, network.BiasNeuron), network.NewNNode(2, network.InputNeuron), network.NewNNode(3, network.OutputNeuron)
+	acts := []neatmath.NodeActivationType{neatmath.SigmoidSteepenedActivation, neatmath.TanhActivation, neatmath.LinearActivation}
+	h := make([]*network.NNode, n)
+	wts := []float64{0.5, -1.5, 0.25, 2}
+	type lk struct {
+		from int // -2 bias, -1 input, k >= 0 hidden k
+		w    float64
+	}
+	incoming := make([][]lk, n+1) // index n = output
+	for i := 0; i < n; i++ {
+		h[i] = network.NewNNode(4+i, network.HiddenNeuron)
+		h[i].ActivationType = acts[i%3]
+		incoming[i] = append(incoming[i], lk{i - 1, wts[i%4]})
+		if i == n/2 && i > 0 {
+			incoming[i] = append(incoming[i], lk{-1, 0.75})
+		}
+		if i%5 == 4 {
+			incoming[i] = append(incoming[i], lk{-2, -0.5})
+		}
+	}
+	incoming[n] = []lk{{n - 1, 1.25}, {-2, 0.3}}
+	node := func(k int) *network.NNode {
+		switch {
+		case k == -2:
+			return bias
+		case k == -1:
+			return in
+		}
+		return h[k]
+	}
+	for i := 0; i <= n; i++ {
+		t := out
+		if i < n {
+			t = h[i]
+		}
+		for _, l := range incoming[i] {
+			t.ConnectFrom(node(l.from), l.w)
+		}
+	}
+	all := []*network.NNode{bias, in, out}
+	if reversed {
+		for i := n - 1; i >= 0; i-- {
+			all = append(all, h[i])
+		}
+	} else {
+		all = append(all, h...)
+	}
+	// reference values for the two inputs used
+	var wants []float64
+	for _, x := range []float64{0.6, -1.1} {
+		val := make([]float64, n)
+		get := func(k int) float64 {
+			switch {
+			case k == -2:
+				return 1
+			case k == -1:
+				return x
+			}
+			return val[k]
+		}
+		for i := 0; i < n; i++ {
+			sum := 0.0
+			for _, l := range incoming[i] {
+				sum += l.w * get(l.from)
+			}
+			val[i], _ = neatmath.NodeActivators.ActivateByType(sum, nil, acts[i%3])
+		}
+		sum := 0.0
+		for _, l := range incoming[n] {
+			sum += l.w * get(l.from)
+		}
+		o, _ := neatmath.NodeActivators.ActivateByType(sum, nil, out.ActivationType)
+		wants = append(wants, o)
+	}
+	return network.NewNetwork([]*network.NNode{in, bias}, []*network.NNode{out}, all, 0), wants
+}
+
+// c12LongEval: the five entry points on fresh instances, both inputs one after the other on the same instance.
+func c12LongEval(n int, reversed bool) (fails []string, evals int64) {
+	for si, name := range []string{"Network.ForwardSteps(D)", "Network.RecursiveSteps", "Fast.ForwardSteps(D)", "Fast.RecursiveSteps", "Fast.Relax"} {
+		msg := func() (msg string) {
+			defer func() {
+				if r := recover(); r != nil {
+					msg = fmt.Sprintf("%s panicked: %v", name, r)
+				}
+			}()
+			net, wants := c12LongBuild(n, reversed)
+			var solver network.Solver = net
+			if si >= 2 {
+				fs, err := net.FastNetworkSolver()
+				if err != nil {
+					return fmt.Sprintf("%s: %v", name, err)
+				}
+				solver = fs
+			}
+			depth := n + 1
+			for k, x := range []float64{0.6, -1.1} {
+				if err := solver.LoadSensors([]float64{x}); err != nil {
+					return fmt.Sprintf("%s: load failed: %v", name, err)
+				}
+				var err error
+				switch si {
+				case 0, 2:
+					_, err = solver.ForwardSteps(depth)
+				case 1, 3:
+					_, err = solver.RecursiveSteps()
+				case 4:
+					_, err = solver.Relax(depth+3, 5e-324)
+				}
+				if err != nil {
+					return fmt.Sprintf("%s failed: %v", name, err)
+				}
+				evals++
+				got := solver.ReadOutputs()
+				if len(got) != 1 || (!relClose(got[0], wants[k], 1e-11) && math.Abs(got[0]-wants[k]) > 1e-13) {
+					return fmt.Sprintf("%s, input %v (vector #%d on the instance): output %v, evaluating each neuron once in chain order gives %.17g", name, x, k, got, wants[k])
+				}
+			}
+			return ""
+		}()
+		if msg != "" {
+			fails = append(fails, msg)
+		}
+	}
+	return fails, evals
+}
+
+func c12Long(c *Ctx) {
+	maxLong := 80
+	if !c.Quick() {
+		maxLong = 400
+	}
+	parFor(maxLong, func(i int) {
+		n := i + 1
+		for _, rev := range []bool{false, true} {
+			fails, ev := c12LongEval(n, rev)
+			c.AddEval(ev)
+			for _, f := range fails {
+				c.ViolateOrd("C12/deep-chain", int64(1)<<40|int64(n), fmt.Sprintf("%s on the chain network of %d hidden neurons (node list reversed: %v)", f, n, rev),
+					&Replay{Scenario: "long", Params: map[string]interface{}{"n": n, "reversed": rev}})
+			}
+		}
+		c.Distinct(hashString(fmt.Sprint("c12long", n)))
+	})
+	c.Rule += fmt.Sprintf("; DEEP NETWORKS: for every N = 1..%d the chain bias/input -> N hidden neurons -> output with a skip link from the input into the middle, bias links into every fifth neuron and the output, activations alternating steepened sigmoid / tanh / linear, node list in signal and in reverse order: five entry points, two input vectors one after the other on the instance, vs one pass in chain order", maxLong)
+}
+
 func runC12(c *Ctx) {
 	allActs := seqInts(len(c12AllActs) + 3)
 	fewActs := []int{3, 13, 10, 4, 19, 17, 20, 21, 22} // steepened sigmoid, linear, tanh, approx sigmoid, step, sign, 3 mixed
@@ -831,6 +986,7 @@ func runC12(c *Ctx) {
 		}
 		c.mu.Unlock()
 	})
+	c12Long(c)
 	c.Sample(c12Case{c12Shape{NB: 1, NI: 1, NH: 2, NO: 1}, 0b110100101, 0, 13, []float64{2}}.describe())
 	c.Sample(map[string]interface{}{"solvers": c12Solvers})
 	c.Assume("weights come from a non-saturating 4-value alphabet; cases where a step/sign neuron's input is within 1e-9 of its jump and not exactly representable are skipped (summation order is legitimately free there) and counted")
@@ -845,6 +1001,13 @@ func bitsSet(m uint64) int {
 }
 
 func replayC12(c *Ctx, rp *Replay) (bool, string) {
+	if rp.Scenario == "long" {
+		rev, _ := rp.Params["reversed"].(bool)
+		if fails, _ := c12LongEval(paramInt(rp, "n"), rev); len(fails) > 0 {
+			return true, fails[0]
+		}
+		return false, fmt.Sprintf("chain of %d", paramInt(rp, "n"))
+	}
 	cs := c12Case{Shape: c12Shape{NB: paramInt(rp, "nb"), NI: paramInt(rp, "ni"), NH: paramInt(rp, "nh"), NO: paramInt(rp, "no"), Rev: paramInt(rp, "rev") == 1},
 		WRot: paramInt(rp, "wrot"), ActPat: paramInt(rp, "act")}
 	if v, ok := rp.Params["mask"].(float64); ok {
